@@ -238,6 +238,53 @@ def generate(rng, opts):
             for i, x in enumerate(ring):
                 j = (i + 1) % len(ring)
                 modules[x]["stmts"].append({"s": "allplus", "mod": holders[j], "name": f"m{j}", "form": "via", "names": [rng.choice(NAMES)], "i": 90 + i})
+    if cfg["wildcards"] and rng.random() < 0.25:
+        # motifs around wildcard imports that random statements almost never line up (each was behind a repaired defect
+        # that random generation met about once in 10^5 histories)
+        own = [mp for mp in modules if mp.split(".")[0] in layout]
+        for _ in range(rng.choice([1, 1, 2])):
+            motif = rng.choice(["star-from-self-cyclic-name", "star-of-self-star", "star-through-module-alias", "star-imports-name-of-submodule"])
+            holder = rng.choice(own)
+            if motif == "star-from-self-cyclic-name":
+                # `from .n import n` where no module n exists: the name is an alias whose target passes through itself
+                pkg = rng.choice(list(layout))
+                n = rng.choice([x for x in MODS + NAMES if f"{pkg}.{x}" not in modules] or ["zz"])
+                modules[pkg]["stmts"].insert(0, {"s": "from", "mod": rng.choice([f".{n}", f"{pkg}.{n}"]), "name": n, "as": None})
+                modules[holder]["stmts"].insert(rng.randrange(len(modules[holder]["stmts"]) + 1), {"s": "star", "mod": f"{pkg}.{n}"})
+            elif motif == "star-of-self-star":
+                # a module that wildcard-imports itself keeps an unexpandable placeholder; others import * from it,
+                # and the package is also reachable through an alias of itself (`import pkg` inside pkg)
+                x = rng.choice(own)
+                modules[x]["stmts"].insert(0, {"s": "star", "mod": x})
+                modules[holder]["stmts"].insert(rng.randrange(len(modules[holder]["stmts"]) + 1), {"s": "star", "mod": x})
+                if rng.random() < 0.7:
+                    pkg = x.split(".")[0]
+                    modules[pkg]["stmts"].append({"s": "import", "mod": pkg, "as": None})
+            elif motif == "star-imports-name-of-submodule":
+                # a package imports * from its submodule x, and x itself imports a name `x` from elsewhere: the imported
+                # alias takes the submodule's slot; somebody else imports a name *through* that path, and one alias
+                # somewhere can never be resolved (keeps resolve_aliases iterating)
+                dotted = [mp for mp in own if "." in mp and not modules[mp]["init"]]
+                if dotted:
+                    x = rng.choice(dotted)
+                    parent, leaf = x.rsplit(".", 1)
+                    src = rng.choice([mp for mp in own if mp != x] + ["nopkg"])
+                    modules[x]["stmts"].append({"s": "from", "mod": src, "name": leaf, "as": None})
+                    modules[parent]["stmts"].append({"s": "star", "mod": rng.choice([x, "." + leaf])})
+                    modules[holder]["stmts"].append({"s": "from", "mod": x, "name": rng.choice(NAMES + [leaf]), "as": rng.choice(NAMES)})
+                    if rng.random() < 0.7:
+                        modules[rng.choice(own)]["stmts"].append({"s": "from", "mod": rng.choice(["nopkg.x", "_p.x", f"{parent}.zz"]), "name": "x", "as": None})
+            else:
+                # the wildcard names its source through an alias of a module (`from pkg import mod as m`, `from holder.m import *`)
+                dotted = [mp for mp in own if "." in mp]
+                if dotted:
+                    x = rng.choice(dotted)
+                    parent, leaf = x.rsplit(".", 1)
+                    modules[holder]["stmts"].insert(0, {"s": "from", "mod": parent, "name": leaf, "as": "m"})
+                    user = rng.choice(own)
+                    modules[user]["stmts"].append({"s": "star", "mod": f"{holder}.m"})
+                    if rng.random() < 0.5:
+                        modules[x]["stmts"].append({"s": "star", "mod": user})
     stubs = {}
     if cfg["external"] and rng.random() < 0.3:
         # top-level stubs next to an external package; broken stubs make its on-demand load fail *after* the runtime
@@ -341,6 +388,7 @@ class _Tracker:
         self.born_from_wildcard = set()
         self.linked = set()
         self.born_dangling = set()
+        self.reloaded = False
         tracker = self
 
         class Ext(griffe.Extension):
@@ -527,6 +575,8 @@ def _step(ctx, g, w, coll, loaders, tracker, op, budget_mode, faulty_pkgs, all_p
         if kind == "load":
             loader = loaders[op["loader"]]
             exists = op["pkg"] in all_pkgs
+            if op["pkg"] in coll.members:
+                tracker.reloaded = True  # fresh module objects replace the old ones: earlier bindings go stale by design
             try:
                 fsp = op["pkg"] in world.get("stubs_pkgs", {})
                 _run_op(lambda: loader.load(op.get("objspec", op["pkg"]), try_relative_path=False, submodules=op.get("submodules", True), find_stubs_package=fsp), budget_mode)
@@ -686,6 +736,25 @@ def _alias_tags(a, tracker):
     return tags
 
 
+def _raw_lookup(coll, dotted):
+    """Object stored at a dotted path, by raw dicts; a resolved alias on the way is followed, anything else -> None."""
+    obj = coll
+    parts = dotted.split(".")
+    for i, part in enumerate(parts):
+        members = obj.members if not getattr(obj, "is_alias", False) else None
+        if members is None or part not in members:
+            return None
+        obj = members[part]
+        if i < len(parts) - 1:
+            hops = 0
+            while obj.is_alias:
+                if obj._target is None or hops > 20:
+                    return None
+                obj = obj._target
+                hops += 1
+    return obj
+
+
 def _check_structure(ctx, g, coll, tracker, all_pkgs, budget_mode=False):
     """I3 + I5 by raw pointers only (no properties that could resolve anything)."""
     for a in _aliases(coll):
@@ -741,6 +810,17 @@ def _check_structure(ctx, g, coll, tracker, all_pkgs, budget_mode=False):
                 ctx.fail("I3-cycle", f"resolved cyclic chain at {_apath(a)}: final_target returned instead of raising CyclicAliasError")
                 return False
             continue
+        # I5: a resolved link points at the object that sits at its target path (raw walk, resolved links followed)
+        if not tracker.reloaded and id(a) not in tracker.linked:
+            want = _raw_lookup(coll, a.target_path)
+            if want is not None and a._target is not want and not (want.is_alias and want._target is a._target):
+                got = a._target
+                if not (got.is_alias and got._parent is not None and got._parent.is_alias):  # transient view objects differ by identity
+                    # Observation only.  A link bound before a member on its path was replaced (a wildcard-imported
+                    # name taking the place of a submodule, a stubs merge) keeps the object it was bound to: the
+                    # property asks for "resolved down to a real object", not for "the object now at that path",
+                    # so this is counted, never reported (it was a false alarm when it was an invariant).
+                    ctx.probe("resolved-link-bound-to-displaced-object")
         # I5: what exists nowhere is never resolved
         top = a.target_path.split(".", 1)[0]
         if top not in all_pkgs and top not in coll.members:
